@@ -2,6 +2,8 @@ package hclsyntax
 
 import (
 	hcl "Havoc/pkg/profile/yaotl"
+
+	"github.com/zclconf/go-cty/cty"
 )
 
 // textseg.ScanGraphemeClusters by its contract (see the json harness for the reasoning).
@@ -31,6 +33,12 @@ func verifStubGrapheme(data []byte, atEOF bool) (int, []byte, error) {
 	}
 	return n, data[:n], nil
 }
+
+// "Did you mean ...?" hints only decorate diagnostic text; computing edit distances over a
+// symbolic name forks on every character pair (formatting blow-up), so the hint is left out.
+//
+//verif:stub-if nohint Havoc/pkg/profile/yaotl/hclsyntax.nameSuggestion
+func verifStubNameSuggestion(given string, suggestions []string) string { return "" }
 
 const verifStrLitAnyMaxL = 4
 
@@ -136,5 +144,446 @@ func H_c14_strlit() {
 			verif_assert(got[k] == value[k], "the decoded string equals the value")
 		}
 	}
+	verif_witness()
+}
+
+const verifLexMaxL = 2
+
+// H_c17_lex: the native-syntax scanner (the Ragel machine of scan_tokens.go, all three
+// entry modes) on every byte string of length 0..L: it terminates without panicking, its
+// tokens come in source order without overlap, each carries exactly the input bytes of its
+// range, the bytes between tokens are blanks only (or the leading UTF-8 BOM), the last
+// token is the end-of-file token at the end of the input, and line/column never go below 1.
+func H_c17_lex() {
+	// the first choice partitions the input space for sharding: mode x top two bits of byte 0
+	slice := nondet_choice("mode-x-quadrant", 12)
+	mode := scanMode(slice % 3)
+	L := nondet_choice("L", verif_bound("lex-maxL", verifLexMaxL, 3)+1)
+	src := nondet_bytes("src", L)
+	if L == 0 {
+		verif_assume(slice/3 == 0)
+	} else {
+		verif_assume(int(src[0]>>6) == slice/3)
+	}
+	verifLexCheck(src, mode)
+	verif_witness()
+}
+
+// verifLexCheck scans src and checks what C17 states about the token stream.
+func verifLexCheck(src []byte, mode scanMode) {
+	L := len(src)
+	toks := scanTokens(src, "f", hcl.Pos{Byte: 0, Line: 1, Column: 1}, mode)
+	verif_assert(len(toks) >= 1, "at least the end-of-file token")
+	pos := 0
+	for i, t := range toks {
+		s, e := t.Range.Start.Byte, t.Range.End.Byte
+		verif_assert(s >= pos, "tokens come in source order without overlap")
+		verif_assert(e >= s, "token range is not inverted")
+		verif_assert(e <= L, "token range lies inside the input")
+		if s < pos || e < s || e > L {
+			return
+		}
+		for k := pos; k < s; k++ {
+			blank := src[k] == ' ' || src[k] == '\t'
+			if k < 3 {
+				if pos == 0 {
+					if s >= 3 {
+						if src[0] == 0xef {
+							if src[1] == 0xbb {
+								if src[2] == 0xbf {
+									blank = true // byte-order mark
+								}
+							}
+						}
+					}
+				}
+			}
+			verif_assert(blank, "only blanks are skipped between tokens")
+		}
+		verif_assert(len(t.Bytes) == e-s, "token carries as many bytes as its range")
+		if len(t.Bytes) != e-s {
+			return
+		}
+		for k := range t.Bytes {
+			verif_assert(t.Bytes[k] == src[s+k], "token carries exactly the input bytes of its range")
+		}
+		verif_assert(t.Range.Start.Line >= 1, "line numbers start at 1")
+		verif_assert(t.Range.Start.Column >= 1, "column numbers start at 1")
+		verif_assert(t.Range.End.Line >= t.Range.Start.Line, "a token does not end before it starts")
+		if i == len(toks)-1 {
+			verif_assert(t.Type == TokenEOF, "the last token is the end-of-file token")
+			verif_assert(e == L, "the end-of-file token sits at the end of the input")
+			verif_assert(s == e, "the end-of-file token is empty")
+		} else {
+			verif_assert(t.Type != TokenEOF, "end-of-file is reported once, last")
+		}
+		pos = e
+	}
+}
+
+
+const verifParseMaxL = 2
+
+// verifRangeWalker checks, for every node of a syntax tree, that its range lies inside the
+// input and inside the range of its parent.
+type verifRangeWalker struct {
+	L      int
+	Errors bool // the parse reported error diagnostics (the tree comes from error recovery)
+	stack  []hcl.Range
+	kinds  []string
+}
+
+// verifNodeKind names the node type (labels of the nesting obligations carry the parent and
+// child kinds, so that a known finding names one specific parent/child pair).
+func verifNodeKind(n Node) string {
+	switch n.(type) {
+	case *Body:
+		return "Body"
+	case *Attribute:
+		return "Attribute"
+	case *Block:
+		return "Block"
+	case *LiteralValueExpr:
+		return "LiteralValueExpr"
+	case *ScopeTraversalExpr:
+		return "ScopeTraversalExpr"
+	case *RelativeTraversalExpr:
+		return "RelativeTraversalExpr"
+	case *FunctionCallExpr:
+		return "FunctionCallExpr"
+	case *ConditionalExpr:
+		return "ConditionalExpr"
+	case *IndexExpr:
+		return "IndexExpr"
+	case *TupleConsExpr:
+		return "TupleConsExpr"
+	case *ObjectConsExpr:
+		return "ObjectConsExpr"
+	case *ObjectConsKeyExpr:
+		return "ObjectConsKeyExpr"
+	case *ForExpr:
+		return "ForExpr"
+	case *SplatExpr:
+		return "SplatExpr"
+	case *AnonSymbolExpr:
+		return "AnonSymbolExpr"
+	case *BinaryOpExpr:
+		return "BinaryOpExpr"
+	case *UnaryOpExpr:
+		return "UnaryOpExpr"
+	case *TemplateExpr:
+		return "TemplateExpr"
+	case *TemplateJoinExpr:
+		return "TemplateJoinExpr"
+	case *TemplateWrapExpr:
+		return "TemplateWrapExpr"
+	case *ParenthesesExpr:
+		return "ParenthesesExpr"
+	}
+	return "Node"
+}
+
+func (w *verifRangeWalker) Enter(n Node) hcl.Diagnostics {
+	// Attributes and Blocks are grouping nodes without a source range of their own
+	// (documented in structure.go: "produce an invalid range"); their members are checked
+	// against the enclosing body.
+	switch n.(type) {
+	case Attributes, Blocks:
+		var up hcl.Range
+		kind := ""
+		if len(w.stack) > 0 {
+			up = w.stack[len(w.stack)-1]
+			kind = w.kinds[len(w.kinds)-1]
+		}
+		w.stack = append(w.stack, up)
+		w.kinds = append(w.kinds, kind)
+		return nil
+	}
+	r := n.Range()
+	kind := verifNodeKind(n)
+	verif_assert(r.Start.Byte >= 0, "node range starts inside the input")
+	verif_assert(r.End.Byte <= w.L, "node range ends inside the input")
+	verif_assert(r.Start.Byte <= r.End.Byte, "node range is not inverted")
+	_, synthetic := n.(*AnonSymbolExpr)
+	// AnonSymbolExpr is documented as a synthetic expression (the splat's "current item");
+	// its range is that of the splat marker, which is not part of the traversal applied to it
+	if len(w.stack) > 0 && !synthetic {
+		p := w.stack[len(w.stack)-1]
+		how := " (error-free input)"
+		if w.Errors {
+			how = " (input with syntax errors)"
+		}
+		pair := w.kinds[len(w.kinds)-1] + " > " + kind + how
+		verif_assert(r.Start.Byte >= p.Start.Byte, "child starts inside its parent: "+pair)
+		verif_assert(r.End.Byte <= p.End.Byte, "child ends inside its parent: "+pair)
+	}
+	w.stack = append(w.stack, r)
+	w.kinds = append(w.kinds, kind)
+	return nil
+}
+
+func (w *verifRangeWalker) Exit(n Node) hcl.Diagnostics {
+	w.stack = w.stack[:len(w.stack)-1]
+	w.kinds = w.kinds[:len(w.kinds)-1]
+	return nil
+}
+
+func verifCheckDiags(diags hcl.Diagnostics, L int) {
+	for _, d := range diags {
+		if d.Subject != nil {
+			verif_assert(d.Subject.Start.Byte >= 0, "diagnostic range starts inside the input")
+			verif_assert(d.Subject.End.Byte <= L, "diagnostic range ends inside the input")
+			verif_assert(d.Subject.Start.Byte <= d.Subject.End.Byte, "diagnostic range is not inverted")
+		}
+		if d.Context != nil {
+			verif_assert(d.Context.Start.Byte >= 0, "diagnostic context starts inside the input")
+			verif_assert(d.Context.End.Byte <= L, "diagnostic context ends inside the input")
+		}
+	}
+}
+
+// verifParseAndCheck runs one native-syntax entry point on src and checks what C17 states
+// about its result: a tree and/or diagnostics come back (no panic, no endless loop), every
+// range of a node or diagnostic lies inside the input, children lie inside their parents,
+// and an input without error diagnostics evaluates without panicking.
+func verifParseAndCheck(which int, src []byte) {
+	L := len(src)
+	start := hcl.Pos{Byte: 0, Line: 1, Column: 1}
+	var diags hcl.Diagnostics
+	var expr Expression
+	switch which {
+	case 0:
+		var f *hcl.File
+		f, diags = ParseConfig(src, "f", start)
+		verif_assert(f != nil, "ParseConfig always returns a file")
+		if f == nil {
+			return
+		}
+		verif_assert(f.Body != nil, "ParseConfig always returns a body")
+		if body, ok := f.Body.(*Body); ok {
+			Walk(body, &verifRangeWalker{L: L, Errors: diags.HasErrors()})
+			if !diags.HasErrors() {
+				attrs, _ := body.JustAttributes()
+				for _, a := range attrs {
+					_, vd := a.Expr.Value(nil)
+					verifCheckDiags(vd, L)
+				}
+			}
+		}
+	case 1:
+		expr, diags = ParseExpression(src, "f", start)
+	case 2:
+		expr, diags = ParseTemplate(src, "f", start)
+	case 3:
+		var tr hcl.Traversal
+		tr, diags = ParseTraversalAbs(src, "f", start)
+		for _, st := range tr {
+			r := st.SourceRange()
+			verif_assert(r.Start.Byte >= 0, "traversal step starts inside the input")
+			verif_assert(r.End.Byte <= L, "traversal step ends inside the input")
+		}
+	}
+	verifCheckDiags(diags, L)
+	if expr != nil {
+		Walk(expr, &verifRangeWalker{L: L, Errors: diags.HasErrors()})
+		if !diags.HasErrors() {
+			_, vd := expr.Value(nil)
+			verifCheckDiags(vd, L)
+		}
+	}
+}
+
+// H_c17_parse: the four native-syntax entry points (configuration file, expression,
+// template, traversal) on every byte string of length 0..L.
+func H_c17_parse() {
+	// the first choice partitions the input space for sharding: entry x top two bits of byte 0
+	slice := nondet_choice("entry-x-quadrant", 16)
+	which := slice % 4
+	L := nondet_choice("L", verif_bound("parse-maxL", verifParseMaxL, 3)+1)
+	src := nondet_bytes("src", L)
+	if L == 0 {
+		verif_assume(slice/4 == 0)
+	} else {
+		verif_assume(int(src[0]>>6) == slice/4)
+	}
+	verifParseAndCheck(which, src)
+	verif_witness()
+}
+
+// verifSpell appends to spelled one accepted spelling of byte c inside a quoted string and
+// returns it; the choice of spelling is nondeterministic (assumptions discard the spellings
+// the dialect does not offer for this byte).
+func verifSpell(spelled []byte, c byte, afterHex *bool, withTemplateEscapes bool) []byte {
+	nsp := 4
+	if withTemplateEscapes {
+		nsp = 5
+	}
+	switch nondet_choice("spelling", nsp) {
+	case 0: // raw
+		verif_assume(c != '"')
+		verif_assume(c != '\\')
+		verif_assume(c != '\n')
+		verif_assume(c != '\r')
+		verif_assume(c != '$')
+		verif_assume(c != '%')
+		verif_assume(c >= 0x20)
+		verif_assume(c < 0x7f)
+		if *afterHex {
+			isHex := (c >= '0' && c <= '9') || (c >= 'a' && c <= 'f') || (c >= 'A' && c <= 'F')
+			verif_assume(!isHex)
+		}
+		spelled = append(spelled, c)
+		*afterHex = false
+	case 1: // named escape
+		switch c {
+		case '\n':
+			spelled = append(spelled, '\\', 'n')
+		case '\r':
+			spelled = append(spelled, '\\', 'r')
+		case '\t':
+			spelled = append(spelled, '\\', 't')
+		case '"':
+			spelled = append(spelled, '\\', '"')
+		case '\\':
+			spelled = append(spelled, '\\', '\\')
+		default:
+			verif_assume(false)
+		}
+		*afterHex = false
+	case 2:
+		verif_assume(c < 0x80)
+		spelled = append(spelled, '\\', 'x', hexdU[c>>4], hexdU[c&15])
+		*afterHex = true
+	case 3:
+		verif_assume(c < 0x80)
+		spelled = append(spelled, '\\', 'x', hexdL[c>>4], hexdL[c&15])
+		*afterHex = true
+	case 4: // a lone template-marker character: "$" / "%" not followed by "{" may be raw
+		verif_assume(c == '$' || c == '%')
+		spelled = append(spelled, c)
+		*afterHex = false
+	}
+	return spelled
+}
+
+// H_c14_profile_string: end to end through the real scanner, parser and template evaluation:
+// a profile line  K = "<spelling>"  (top level, or inside a labelled block whose label is
+// spelled the same way, or "${"/"%{" written with the escaped markers "$${"/"%%{") loads
+// without diagnostics and yields exactly the intended string.
+func H_c14_profile_string() {
+	form := nondet_choice("form", 4)
+	n := nondet_choice("value-len", verif_bound("profile-value-len", 2, 3)+1)
+	var value, spelled []byte
+	afterHex := false
+	for i := 0; i < n; i++ {
+		c := nondet_u8("byte")
+		value = append(value, c)
+		spelled = verifSpell(spelled, c, &afterHex, i == n-1)
+	}
+	var src []byte
+	switch form {
+	case 0:
+		src = append(append([]byte("K = \""), spelled...), "\"\n"...)
+	case 1:
+		src = append(append([]byte("B \"l\" {\n  # c\n\n  K = \""), spelled...), "\"\n}\n"...)
+	case 2: // escaped template markers around the value: $${ and %%{ mean the literal text ${ and %{
+		src = append(append([]byte("K = \"$${"), spelled...), "%%{\"\n"...)
+		value = append(append([]byte("${"), value...), "%{"...)
+	case 3: // the value as a block label
+		src = append(append([]byte("B \""), spelled...), "\" {\n}\n"...)
+	}
+	f, diags := ParseConfig(src, "p", hcl.Pos{Byte: 0, Line: 1, Column: 1})
+	verifCheckDiags(diags, len(src))
+	verif_assert(!diags.HasErrors(), "an accepted spelling loads without an error")
+	if diags.HasErrors() {
+		return
+	}
+	body := f.Body.(*Body)
+	var got string
+	switch form {
+	case 0, 2:
+		verif_assert(len(body.Attributes) == 1, "one attribute")
+		verif_assert(len(body.Blocks) == 0, "no block")
+		a := body.Attributes["K"]
+		verif_assert(a != nil, "the attribute keeps its name")
+		if a == nil {
+			return
+		}
+		v, vd := a.Expr.Value(nil)
+		verif_assert(!vd.HasErrors(), "the value evaluates without an error")
+		verif_assert(v.Type() == cty.String, "a quoted value is a string")
+		if v.Type() != cty.String {
+			return
+		}
+		got = v.AsString()
+	case 1:
+		verif_assert(len(body.Blocks) == 1, "one block")
+		if len(body.Blocks) != 1 {
+			return
+		}
+		b := body.Blocks[0]
+		verif_assert(b.Type == "B", "block type")
+		verif_assert(len(b.Labels) == 1, "one label")
+		if len(b.Labels) == 1 {
+			verif_assert(b.Labels[0] == "l", "label value")
+		}
+		a := b.Body.Attributes["K"]
+		verif_assert(a != nil, "the attribute keeps its name")
+		if a == nil {
+			return
+		}
+		v, vd := a.Expr.Value(nil)
+		verif_assert(!vd.HasErrors(), "the value evaluates without an error")
+		verif_assert(v.Type() == cty.String, "a quoted value is a string")
+		if v.Type() != cty.String {
+			return
+		}
+		got = v.AsString()
+	case 3:
+		verif_assert(len(body.Blocks) == 1, "one block")
+		if len(body.Blocks) != 1 {
+			return
+		}
+		verif_assert(len(body.Blocks[0].Labels) == 1, "one label")
+		if len(body.Blocks[0].Labels) != 1 {
+			return
+		}
+		got = body.Blocks[0].Labels[0]
+	}
+	verif_assert(len(got) == len(value), "the loaded string has the value's length")
+	if len(got) == len(value) {
+		for k := range value {
+			verif_assert(got[k] == value[k], "the loaded string equals the value")
+		}
+	}
+	verif_witness()
+}
+
+// verifSkeletons: small well-formed sources that together visit blocks, labels, nested
+// blocks, lists, objects, templates with interpolation and control sequences, heredocs,
+// for-expressions, function calls, conditionals, splats, indexing and operators.
+var verifSkeletons = []string{
+	"A \"l\" {\n  k = \"v${1}w\"\n  B {\n    n = [1, \"x\"]\n  }\n}\n",
+	"k = {a = 1, \"b\" = f(2, x...)}\nm = <<E\n t${a}\nE\n",
+	"k = [for i, v in l: v if i]\nj = a ? b.c[0] : d.*.e\n",
+	"k = \"%{if a}x%{else}y%{endif}\"\nn = -1 + (2 * !t)\n",
+	"k = {for k, v in m: k => v...}\nh = <<-E\n  a\n  E\nz = a[*].b\n",
+	"k = \"%{for a, b in l}x${b}%{endfor}\"\r\nm = <<E\r\nx\r\nE\r\n",
+}
+
+// H_c17_mutate: single-fault mutations of well-formed sources: one byte at any position of
+// a skeleton is replaced by any byte value, then the configuration-file entry point runs
+// with all the checks of verifParseAndCheck.
+func H_c17_mutate() {
+	// first choice = skeleton x quarter of its positions (partition for sharding)
+	nsk := verif_bound("mutate-skeletons", 2, len(verifSkeletons))
+	slice := nondet_choice("skeleton-x-quarter", nsk*4)
+	k, q := slice/4, slice%4
+	src := []byte(verifSkeletons[k])
+	lo, hi := q*len(src)/4, (q+1)*len(src)/4
+	p := lo + nondet_choice("position", hi-lo)
+	src[p] = nondet_u8("byte")
+	verifLexCheck(src, scanNormal)
+	verifParseAndCheck(0, src)
 	verif_witness()
 }
